@@ -20,6 +20,7 @@ import functools
 import re
 import tokenize  # noqa: F401  (not used; Fortran tokens are scanned by `ftokens`)
 
+from pydantic import ValidationError
 from loki import Sourcefile
 from loki.frontend import FP
 from loki.frontend.source import SourceStatus
@@ -165,11 +166,21 @@ def render_data(o):
     return [[lines[:ib], [], [], lines[ib + 1:]], bind, False, asg]
 
 
+_ckeys = {}
+
+
 def content_key(o):
     """identifies the payload (all non-node fields) of a node across rebuilds"""
+    hit = _ckeys.get(id(o))
+    if hit is not None and hit[0] is o and not isinstance(o, ScopedNode):   # ScopedNodes are updated in place
+        return hit[1]
     s = o.source
     rd = render_data(o)
-    return (type(o).__name__, (s.lines, s.string) if s else None, dumps(rd))
+    key = (type(o).__name__, (s.lines, s.string) if s else None, dumps(rd))
+    if len(_ckeys) > 20000:
+        _ckeys.clear()
+    _ckeys[id(o)] = (o, key, rd)
+    return key
 
 
 class World:
@@ -200,7 +211,7 @@ class World:
 
     def _register(self, o, lbl):
         self.keys.setdefault(content_key(o), lbl)
-        self.rtab.setdefault(lbl, render_data(o))
+        self.rtab.setdefault(lbl, _ckeys[id(o)][2])
 
     def lbl(self, o):
         k = content_key(o)
@@ -304,7 +315,20 @@ def world_for(src, unit):
     return World(src, unit)
 
 
+_derived = {}
+
+
 def derived(src, unit, edits):
+    subs = [e for e in edits if str(e[0]) == 'sub']
+    key = dumps([src, unit, [[s[2], s[3]] for s in subs]])
+    if key not in _derived:
+        if len(_derived) > 64:
+            _derived.clear()
+        _derived[key] = _derived_uncached(src, unit, edits)
+    return _derived[key]
+
+
+def _derived_uncached(src, unit, edits):
     """(TREE, RTAB, FRESH) for a request; the substituted variants are obtained from a separate parse"""
     try:
         w = world_for(src, unit)
@@ -313,6 +337,9 @@ def derived(src, unit, edits):
         subs = [e for e in edits if str(e[0]) == 'sub']
         if len(subs) > 1:
             raise Unsupported('more than one substitution')
+        if subs and any(isinstance(n, ir.Conditional) and n.inline for n in preorder(w.body)):
+            # an inline IF and its body statement share one Source *object*: invalidating either flags both (not modelled)
+            raise Unsupported('substitution with inline conditionals')
         if subs:
             w2 = world_for(src, unit)
             w2.export(w2.body)
@@ -343,8 +370,20 @@ def split_req(req):
 EXC = {IndexError: 'indexerror', TypeError: 'typeerror', AttributeError: 'attributeerror', AssertionError: 'assertionerror'}
 
 
+_real = {}
+
+
 def run_real(req):
-    """-> ('error', tag) | ('ok', world, new_body, text)"""
+    key = dumps(req)
+    if key not in _real:
+        if len(_real) > 8:
+            _real.clear()
+        _real[key] = _run_real(req)
+    return _real[key]
+
+
+def _run_real(req):
+    """-> ('error', tag) | ('error', tag, world, new_body) | ('ok', world, new_body, text)"""
     src, unit, edits, tree, rtab, fresh = split_req(req)
     d = derived(src, unit, edits)
     if dumps(d[0]) == '(unsupported)':
@@ -355,7 +394,10 @@ def run_real(req):
     w.export(w.body)
     for row in rtab:
         w.rtab.setdefault(int(str(row[0])), row[1:])
-    nb = run_edits(w, edits)
+    try:
+        nb = run_edits(w, edits)
+    except ValidationError:
+        return ('error', 'validation')
     try:
         out = cons(nb)
     except tuple(EXC) as e:
@@ -433,6 +475,20 @@ def logical_lines(text):
             continue
         for a, b in _OLDOPS.items():
             s = s.replace(a, b)
+        m = re.match(r'((?:[a-z_]\w*:)?do(?:\d+)?[a-z_]\w*=)(.*)$', s)
+        if m:       # an explicit unit stride is dropped by the regular backend
+            parts, depth, cur = [], 0, ''
+            for ch in m.group(2):
+                if ch == ',' and depth == 0:
+                    parts.append(cur)
+                    cur = ''
+                else:
+                    depth += ch == '('
+                    depth -= ch == ')'
+                    cur += ch
+            parts.append(cur)
+            if len(parts) == 3 and parts[2] == '1':
+                s = m.group(1) + ','.join(parts[:2])
         m = re.fullmatch(r'((?:\d+)?call[a-z_][a-z0-9_%]*)', s)
         if m:
             s += '()'
@@ -459,3 +515,602 @@ def repo_fortran_files():
                 continue
             out.append(str(rel))
     return out
+
+
+# ---------------------------------------------------------------- generator of routines (text)
+
+class G:
+    """random free-form Fortran routine bodies with varied layout; `spice` switches on the constructs behind the known classes"""
+
+    SCAL = ['x', 'y', 'z']
+    INTS = ['i', 'j', 'k']
+    ARRS = ['a', 'b', 'c']
+
+    def __init__(self, rng, spice):
+        self.rng = rng
+        self.spice = spice
+        self.label = 10
+        self.nloop = 0
+
+    def p(self, q):
+        return self.rng.random() < q
+
+    def case(self, s):
+        r = self.rng.random()
+        return s.upper() if r < 0.2 else (s.capitalize() if r < 0.3 else s)
+
+    def sp(self):
+        return self.rng.choice(['', ' ', ' ', '  '])
+
+    def ref(self, loopvars):
+        r = self.rng.random()
+        if r < 0.45:
+            return self.rng.choice(self.SCAL)
+        idx = self.rng.choice(loopvars) if loopvars and self.p(0.8) else str(self.rng.randint(1, 3))
+        return f'{self.rng.choice(self.ARRS)}({self.sp()}{idx}{self.sp()})'
+
+    def lit(self):
+        return self.rng.choice(['1.0', '2.5', '0.', '3.0', '0.5'])
+
+    def expr(self, loopvars, n=2):
+        t = [self.ref(loopvars) if self.p(0.6) else self.lit() for _ in range(self.rng.randint(1, n))]
+        out = t[0]
+        for x in t[1:]:
+            out += f'{self.sp()}{self.rng.choice("+-*")}{self.sp()}{x}'
+        return out
+
+    def cmp(self, loopvars):
+        return f'{self.ref(loopvars)} {self.rng.choice([">", "<", ">=", "=="])} {self.lit()}'
+
+    def assign(self, ind, loopvars):
+        lhs = self.ref(loopvars)
+        s1, s2 = self.sp(), self.sp()
+        if self.p(0.12):
+            return [f'{ind}{lhs}{s1}={s2}{self.expr(loopvars, 1)} {self.rng.choice("+*")} &', f'{ind}   & {self.expr(loopvars, 1)}']
+        line = f'{ind}{lhs}{s1}={s2}{self.expr(loopvars)}'
+        if self.p(0.12):
+            line += '   ! note ' + str(self.rng.randint(0, 9))
+        return [line]
+
+    def call(self, ind, loopvars):
+        args = [self.ref(loopvars) for _ in range(self.rng.randint(1, 3))]
+        kw = self.case('call')
+        name = self.rng.choice(['sub1', 'sub2', 'helper'])
+        if self.p(0.15) and len(args) > 1:
+            return [f'{ind}{kw} {name}({args[0]}, &', f'{ind}  & ' + ', '.join(args[1:]) + ')']
+        return [f'{ind}{kw} {name}({self.sp()}' + ', '.join(args) + f'{self.sp()})']
+
+    def simple(self, ind, loopvars):
+        r = self.rng.random()
+        if r < 0.55:
+            return self.assign(ind, loopvars)
+        if r < 0.7:
+            return self.call(ind, loopvars)
+        if r < 0.8:
+            return [f'{ind}! comment {self.rng.randint(0, 99)}']
+        if r < 0.87:
+            return ['']
+        if r < 0.94:
+            return [f'{ind}{self.case("print")} *, {self.ref(loopvars)}']
+        if self.spice and self.p(0.5):
+            self.label += 10
+            return [f'{self.label} ' + self.assign('', loopvars)[0].strip()] if self.p(0.5) else self.assign(ind, loopvars)
+        return self.assign(ind, loopvars)
+
+    def block(self, ind, loopvars, budget, depth):
+        out = []
+        n = self.rng.randint(1, max(1, min(4, budget)))
+        for _ in range(n):
+            out += self.stmt(ind, loopvars, max(1, budget // n), depth)
+        return out
+
+    def stmt(self, ind, loopvars, budget, depth):
+        if depth >= 3 or budget <= 1 or self.p(0.45):
+            return self.simple(ind, loopvars)
+        r = self.rng.random()
+        step = self.rng.choice(['  ', '  ', '   ', '    '])
+        if r < 0.4:
+            free = [v for v in self.INTS if v not in loopvars]
+            if not free:
+                return self.simple(ind, loopvars)
+            v = free[0]
+            body = self.block(ind + step, loopvars + [v], budget - 1, depth + 1)
+            do = self.case('do')
+            end = self.rng.choice(['end do', 'enddo', 'END DO', 'End Do'])
+            hdr = f'{ind}{do} {v}{self.sp()}={self.sp()}1,{self.sp()}n'
+            if self.spice and self.p(0.15):
+                return [f'{ind}{do} {v} = 1, &', f'{ind}    & n'] + body + [f'{ind}{end}']
+            if self.spice and self.p(0.12):
+                self.label += 10
+                return [f'{ind}{do} {self.label} {v} = 1, n'] + body + [f'{self.label} continue']
+            if self.p(0.1):
+                self.nloop += 1
+                nm = f'lp{self.nloop}'
+                return [f'{ind}{nm}: ' + hdr.strip()] + body + [f'{ind}{end} {nm}']
+            return [hdr] + body + [f'{ind}{end}']
+        if r < 0.8:
+            kw = self.case('if')
+            then = self.case('then')
+            endif = self.rng.choice(['end if', 'endif', 'END IF'])
+            if self.spice and self.p(0.15):
+                return [f'{ind}{kw} ({self.cmp(loopvars)}) {self.ref(loopvars)} = {self.expr(loopvars)}']
+            body = self.block(ind + step, loopvars, budget - 1, depth + 1)
+            if self.spice and self.p(0.12):
+                hdr = [f'{ind}{kw} ({self.cmp(loopvars)} .and. &', f'{ind}   & {self.cmp(loopvars)}) {then}']
+            else:
+                hdr = [f'{ind}{kw} ({self.cmp(loopvars)}) {then}']
+            out = hdr + body
+            n_ei = 0
+            if self.spice and self.p(0.3):
+                n_ei = 1 if self.p(0.6) else 2
+            for _ in range(n_ei):
+                out += [f'{ind}{self.case("else if")} ({self.cmp(loopvars)}) {then}']
+                out += self.block(ind + step, loopvars, budget - 1, depth + 1)
+            if self.p(0.45):
+                el = self.case('else')
+                if self.spice and self.p(0.1):
+                    el += '  ! otherwise'
+                out += [f'{ind}{el}'] + self.block(ind + step, loopvars, budget - 1, depth + 1)
+            if self.spice and self.p(0.1):
+                endif += '  ! done'
+            return out + [f'{ind}{endif}']
+        if r < 0.9:
+            body = self.block(ind + step, loopvars, budget - 1, depth + 1)
+            return [f'{ind}do while ({self.rng.choice(self.SCAL)} < {self.lit()})'] + body + [f'{ind}end do']
+        body = self.block(ind + step, loopvars, budget - 1, depth + 1)
+        return [f'{ind}associate (q => {self.rng.choice(self.ARRS)}(1))'] + body + [f'{ind}end associate']
+
+    def routine(self, size):
+        ind = self.rng.choice(['  ', '  ', '', '    '])
+        body = self.block(ind, [], size, 0)
+        while len(body) < 2:
+            body += self.simple(ind, [])
+        head = ['subroutine gen(n, a, b, c, x, y, z)', f'{ind}integer, intent(in) :: n',
+                f'{ind}real, intent(inout) :: a(n), b(n), c(n), x, y, z', f'{ind}integer :: i, j, k, iw', f'{ind}real :: w']
+        return '\n'.join(head + body + ['end subroutine gen']) + '\n'
+
+
+# ---------------------------------------------------------------- sexp-level tree helpers (requests and exports)
+
+def t_kind(n): return str(n[0])
+def t_lbl(n): return int(str(n[1]))
+def t_inline(n): return str(n[2][0]).lower() == 'true'
+def t_elseif(n): return str(n[2][1]).lower() == 'true'
+def t_label(n): return None if not isinstance(n[2][2], str) or isinstance(n[2][2], A) else n[2][2]
+def t_status(n): return str(n[3])
+def t_l0(n): return int(str(n[4]))
+def t_l1(n): return int(str(n[5]))
+def t_text(n): return list(n[6])
+def t_body(n): return n[7]
+def t_els(n): return n[8]
+
+
+def t_pre(n):
+    yield n
+    for c in list(t_body(n)) + list(t_els(n)):
+        yield from t_pre(c)
+
+
+VERB = ('assign', 'call', 'comment', 'decl', 'imprt', 'loop', 'cond', 'section')
+
+
+def strip_comment(line):
+    q = None
+    for i, c in enumerate(line):
+        if q:
+            if c == q:
+                q = None
+        elif c in '\'"':
+            q = c
+        elif c == '!':
+            return line[:i]
+    return line
+
+
+def visited(n):
+    """nodes the conservative visitor reaches (not below a verbatim node that is still valid), with their parent"""
+    def rec(n, parent):
+        yield n, parent
+        if t_kind(n) in VERB and t_status(n) == 'valid':
+            return
+        for c in list(t_body(n)) + list(t_els(n)):
+            yield from rec(c, n)
+    yield from rec(n, None)
+
+
+def reassembled(n):
+    return t_kind(n) in ('loop', 'cond') and t_status(n) == 'ichildren' and not t_inline(n)
+
+
+def classify(tree):
+    """known-finding classes present in a (result) tree: decidable predicates on the exported data"""
+    out = set()
+    vis = list(visited(tree))
+    for n, parent in vis:
+        k = t_kind(n)
+        if reassembled(n):
+            first = strip_comment(t_text(n)[0]).rstrip() if t_text(n) else ''
+            if first.endswith('&'):
+                out.add('multiline-header-truncated')
+            last = ''.join(strip_comment(t_text(n)[-1]).lower().split()) if t_text(n) else ''
+            if k == 'loop' and not last.startswith('enddo'):
+                out.add('labelled-do-terminator-repeated')
+            if k == 'cond' and not t_elseif(n) and t_els(n) and not any(l.upper().strip() == 'ELSE' for l in t_text(n)):
+                out.add('else-line-not-found')
+        if k == 'cond' and t_inline(n) and t_status(n) not in ('valid',) and t_body(n) and \
+                t_status(t_body(n)[0]) == 'valid' and t_kind(t_body(n)[0]) in VERB:
+            out.add('inline-conditional-repeated')
+        if parent is not None and t_label(n) is not None and k in VERB and t_status(n) == 'valid':
+            out.add('statement-label-repeated')
+        if parent is not None and k == 'comment' and t_status(n) == 'valid':
+            sib = list(t_body(parent)) + list(t_els(parent))
+            i = [j for j, c in enumerate(sib) if c is n][0]
+            if i > 0 and t_status(sib[i - 1]) != 'none' and t_l1(sib[i - 1]) == t_l0(n):
+                out.add('inline-comment-repeated')
+        if k in ('loop', 'cond', 'section') and t_status(n) == 'valid' and not t_body(n) and not t_els(n):
+            if (k == 'section' and ''.join(t_text(n)).strip()) or (k != 'section' and t_l1(n) - t_l0(n) >= 2):
+                out.add('emptied-node-stays-valid')
+    if elseif_leak(tree, False):
+        out.add('elseif-flag-leaks')
+    return out
+
+
+def elseif_leak(n, ie):
+    """mirror of the `is_elseif` keyword travelling through `**kwargs` in the conservative visitor: True when it reaches a handler
+    that is not the ELSE IF branch it was meant for (a second `is_elseif=` → TypeError, or a regular IF printed as ELSE IF)"""
+    k, st = t_kind(n), t_status(n)
+    if k in VERB and st == 'valid':
+        return False
+    kids_b, kids_e = list(t_body(n)), list(t_els(n))
+    if k == 'cond':
+        if st == 'ichildren' and not t_inline(n):
+            if t_elseif(n):
+                if ie:
+                    return True
+                return any(elseif_leak(c, ie) for c in kids_b) or any(elseif_target(c) for c in kids_e)
+            return any(elseif_leak(c, ie) for c in kids_b + kids_e)
+        if t_inline(n):
+            return any(elseif_leak(c, ie) for c in kids_b)
+        # regular handler: pops the flag; an ELSE IF header is right only for the direct else-if target (`elseif_target`)
+        if ie:
+            return True
+        if t_elseif(n):
+            return any(elseif_leak(c, False) for c in kids_b) or any(elseif_target(c) for c in kids_e)
+        return any(elseif_leak(c, False) for c in kids_b + kids_e)
+    return any(elseif_leak(c, ie) for c in kids_b + kids_e)
+
+
+def elseif_target(c):
+    """the else-if branch itself, visited with is_elseif=True on purpose"""
+    k, st = t_kind(c), t_status(c)
+    if k != 'cond':
+        return elseif_leak(c, True)
+    if st == 'valid':
+        return False
+    if st == 'ichildren' and not t_inline(c):
+        if t_elseif(c):
+            return True
+        return any(elseif_leak(x, True) for x in list(t_body(c)) + list(t_els(c)))
+    if t_inline(c):
+        return True
+    if t_elseif(c):
+        return any(elseif_leak(x, False) for x in t_body(c)) or any(elseif_target(x) for x in t_els(c))
+    return any(elseif_leak(x, False) for x in list(t_body(c)) + list(t_els(c)))
+
+
+# ---------------------------------------------------------------- edit generator
+
+def gen_edits(rng, tree, allow_sub=True):
+    """a random sequence of local edits on the exported tree (indices refer to the tree current at that step; the generator
+    tracks only the size conservatively: after the first transformer edit later edits use indices valid in *any* outcome)"""
+    nodes = list(t_pre(tree))
+    n = len(nodes)
+    edits = []
+    # nodes that must not be keys: the root, the else-if branch of a conditional, the body of an inline conditional
+    forbidden = {0}
+    for i, nd in enumerate(nodes):
+        if t_kind(nd) == 'cond' and t_elseif(nd):
+            for c in t_els(nd):
+                forbidden.add([j for j, x in enumerate(nodes) if x is c][0])
+        if t_kind(nd) == 'cond' and t_inline(nd):
+            for c in t_body(nd):
+                forbidden.add([j for j, x in enumerate(nodes) if x is c][0])
+    cand = [i for i in range(n) if i not in forbidden]
+    if not cand:
+        return [[A('tr'), rng.random() < 0.3, []]]
+
+    def subtree_idx(i):
+        return set(range(i, i + len(list(t_pre(nodes[i])))))
+
+    nf = 8
+    k = rng.choice([1, 1, 1, 2, 2, 3])
+    keys = rng.sample(cand, min(k, len(cand)))
+    pairs = []
+    keyset = set()
+    for kx in keys:
+        keyset |= subtree_idx(kx)
+    for kx in keys:
+        r = rng.random()
+        free = [i for i in cand if i not in keyset and not (subtree_idx(i) & keyset) and not (subtree_idx(i) & subtree_idx(kx))]
+        if r < 0.25:
+            h = A('none')
+        elif r < 0.45:
+            h = [A('node'), [A('fresh'), rng.randrange(nf)]]
+        elif r < 0.65 and free:
+            h = [A('node'), [A('ref'), rng.choice(free)]]
+        elif r < 0.75 and len(keys) > 1:
+            other = rng.choice([x for x in keys if x != kx])
+            h = [A('node'), [A('ref'), other]]          # swap / duplicate with another key
+        else:
+            items = []
+            for _ in range(rng.randint(1, 3)):
+                q = rng.random()
+                if q < 0.45:
+                    items.append([A('fresh'), rng.randrange(nf)])
+                elif q < 0.6 and free:
+                    items.append([A('ref'), rng.choice(free)])
+                elif not any(str(x[0]) == 'ref' and x[1] == kx for x in items):
+                    # the key itself, at most once: a ScopedNode is updated in place, visiting it twice is outside the model
+                    items.append([A('ref'), kx])
+                else:
+                    items.append([A('fresh'), rng.randrange(nf)])
+            h = [A('tuple')] + items
+        pairs.append([kx, h])
+    edits.append([A('tr'), rng.random() < 0.3, pairs])
+    r = rng.random()
+    if allow_sub and r < 0.35:
+        var = rng.choice(['x', 'y', 'z', 'i', 'a', 'b'])
+        ed = [A('sub'), rng.random() < 0.3, var, var + '_r']
+        if rng.random() < 0.5:
+            edits.insert(0, ed)
+        else:
+            edits.append(ed)
+    elif r < 0.5:
+        edits.append([A('tr'), False, []])
+    return edits
+
+
+# ---------------------------------------------------------------- tables regenerated from the code
+
+def _tables():
+    import ast
+    import inspect
+    from loki.ir import transformer as tr_mod
+    from loki.backend import fgencon as fc_mod
+    st = FortranStyle()
+    # which argument does `_rebuild` hand to `is_source_valid` inside the `any(...)` over the children?
+    tree = ast.parse(inspect.getsource(tr_mod))
+    tests = None
+    for fn in ast.walk(tree):
+        if isinstance(fn, ast.FunctionDef) and fn.name == '_rebuild':
+            for call in ast.walk(fn):
+                if isinstance(call, ast.Call) and getattr(call.func, 'id', None) == 'any':
+                    for c2 in ast.walk(call):
+                        if isinstance(c2, ast.Call) and getattr(c2.func, 'id', None) == 'is_source_valid':
+                            arg = c2.args[0]
+                            if isinstance(arg, ast.Name):
+                                tests = False
+                            elif isinstance(arg, ast.Attribute) and arg.attr == 'source':
+                                tests = True
+    if tests is None:
+        raise RuntimeError('Transformer._rebuild: cannot find the child test')
+    handlers, branches = [], []
+    ftree = ast.parse(inspect.getsource(fc_mod))
+    for cls in ast.walk(ftree):
+        if isinstance(cls, ast.ClassDef) and cls.name == 'FortranCodegenConservative':
+            for fn in cls.body:
+                if isinstance(fn, ast.FunctionDef) and fn.name.startswith('visit_'):
+                    handlers.append(fn.name)
+                    seen = []
+                    for a in ast.walk(fn):
+                        if isinstance(a, ast.Attribute) and isinstance(a.value, ast.Name) and a.value.id == 'SourceStatus':
+                            if a.attr not in seen:
+                                seen.append(a.attr)
+                    branches += [(fn.name, s) for s in seen]
+    q = lambda s: '"' + s + '"'
+    body = '/-! generated by harness/props/c03.py from /repo — do not edit -/\nnamespace LokiModel.C03\n'
+    body += f'def loopIndent : Nat := {st.loop_indent}\n'
+    body += f'def conditionalIndent : Nat := {st.conditional_indent}\n'
+    body += f'def rebuildTestsChildSource : Bool := {"true" if tests else "false"}\n'
+    body += 'def conservativeHandlers : List String := [' + ', '.join(q(h) for h in sorted(handlers)) + ']\n'
+    body += 'def statusBranches : List (String × String) := [' + ', '.join(f'({q(a)}, {q(b)})' for a, b in sorted(branches)) + ']\n'
+    body += 'end LokiModel.C03\n'
+    return {'LokiModel/Generated/C03Tables.lean': body}
+
+
+# ---------------------------------------------------------------- the property
+
+PRIORITY = ['emptied-node-stays-valid', 'else-line-not-found', 'elseif-flag-leaks', 'multiline-header-truncated',
+            'labelled-do-terminator-repeated', 'inline-conditional-repeated', 'statement-label-repeated', 'inline-comment-repeated']
+SEMANTIC = PRIORITY[:-1]
+CPPMACRO = re.compile(r'__(LINE|FILE|DATE|TIME|VERSION__)')
+
+
+def pick(classes, allowed):
+    for c in PRIORITY:
+        if c in classes and c in allowed:
+            return c
+    return None
+
+
+def identity_only(edits):
+    return all(str(e[0]) == 'tr' and len(e[2]) == 0 for e in edits)
+
+
+class C03(Prop):
+    id = 'C03'
+    title = 'Conservative output reproduces unmodified source verbatim'
+    model_modules = ['LokiModel.C03.Model']
+    props_module = 'LokiModel.Props.C03'
+    findings_module = 'LokiModel.Findings.C03'
+    driver = 'Drivers/C03.lean'
+    theorems = ['C03_verbatim', 'C03_tiles_any_invalidation', 'C03_valid_implies_untouched_partial',
+                'C03_edited_output', 'C03_untouched_region_verbatim', 'C03_tables_agree']
+    design_ref = 'DESIGN.md 4.x C03'
+    level = 'proof'
+    level_text = ('Proved for all trees, mappers, render tables, depths: C03_verbatim / C03_tiles_any_invalidation (a tree that '
+                  'tiles prints its text whatever pattern of VALID/INVALID_CHILDREN flags its nodes carry), '
+                  'C03_valid_implies_untouched_partial (after any Transformer mapping or expression substitution a node of a '
+                  'source-consulting kind that is still VALID is a subtree of the input or of a mapper value; ScopedNodes without '
+                  'rebuild_scopes excluded), C03_edited_output / C03_untouched_region_verbatim (the output after an edit is the '
+                  'original text of every key-free tiling region with the replaced nodes re-rendered in between). '
+                  'Whether real trees tile is checked, not assumed: direct oracle on generated routines and every repo file.')
+    level_note = ('The regular backend (fgen) is an abstract per-node render table; the frontend is trusted to deliver the tree and '
+                  'the Source objects; Subroutine/Module header recovery, the `::` split of declarations, NestedTransformer, inplace '
+                  'transformers and multi-body nodes (SELECT CASE, WHERE) are outside the model (oracle only).')
+    technique = 'Lean 4 theorems about a hand-written model + correspondence with the real code'
+    rule = ('generated routines (varied layout; half with the constructs behind the known classes) and every routine of every '
+            'Fortran file under the repo that the FP frontend accepts, each with random edit sequences (Transformer mappings: '
+            'drop / fresh / moved / spliced; SubstituteExpressions rename; identity); a case is non-trivial when at least one '
+            'node is re-flagged; distinct = distinct request lines')
+    trusted_base = ['fparser/FP frontend (tree and Source spans)', 'harness/props/c03.py exporter and Fortran statement canonicaliser']
+    assumptions = ['text is compared as lists of lines; sources with exotic line separators or a trailing newline in a loop/if '
+                   'source string are rejected as unsupported',
+                   'lines stay below the wrap width, so indentation shifts a fallback line without re-wrapping it']
+    extra_obligations = ['whole-file-verbatim', 'unit-verbatim', 'tiles-checked', 'edited-output-vs-fgen', 'valid-flag-vs-text']
+
+    def tables(self):
+        return _tables()
+
+    def classes(self):
+        return PRIORITY + ['scoped-node-source-stale', 'section-source-stripped']
+
+    # ------------------------------------------------------------ generation
+    def gen(self, rng, tier):
+        n_gen = {'quick': 12, 'thorough': 150, 'search': 60}[tier]
+        n_files = {'quick': 3, 'thorough': 10 ** 6, 'search': 40}[tier]
+        for c in range(n_gen):
+            spice = c % 2 == 1
+            text = G(rng, spice).routine(rng.randint(3, 16))
+            src = [A('text'), text]
+            try:
+                w = World(src, 'gen')
+            except Unsupported:
+                continue
+            except Exception:
+                continue        # the frontend rejects the text: not an input
+            tree = w.export(w.body)
+            for _ in range(2):
+                edits = gen_edits(rng, tree) if rng.random() < 0.9 else []
+                yield Case(make_req(src, 'gen', edits), stream='gen-spicy' if spice else 'gen-plain',
+                           nontrivial=bool(edits))
+        files = repo_fortran_files()
+        rng.shuffle(files)
+        for f in files[:n_files]:
+            try:
+                sf = parse(_read(f))
+                names = [r.name for r in all_routines(sf)]
+            except Exception:
+                continue
+            for name in names:
+                src = [A('file'), f]
+                yield Case(make_req(src, name, [[A('tr'), False, []]]), stream='repo-identity', nontrivial=True)
+                try:
+                    w = World(src, name)
+                    tree = w.export(w.body)
+                except Exception:
+                    continue
+                if len(list(t_pre(tree))) > 1:
+                    yield Case(make_req(src, name, gen_edits(rng, tree, allow_sub=False)), stream='repo-edit', nontrivial=True)
+
+    def shrink_candidates(self, req):
+        src, unit, edits, *_ = split_req(req)
+        for i in range(len(edits)):
+            yield make_req(src, unit, edits[:i] + edits[i + 1:])
+        for i, e in enumerate(edits):
+            if str(e[0]) == 'tr':
+                for j in range(len(e[2])):
+                    yield make_req(src, unit, edits[:i] + [[e[0], e[1], e[2][:j] + e[2][j + 1:]]] + edits[i + 1:])
+
+    # ------------------------------------------------------------ real code
+    def impl(self, req):
+        return impl_edit(req)
+
+    # ------------------------------------------------------------ direct oracle
+    def oracle(self, req):
+        src, unit, edits, tree, rtab, fresh = split_req(req)
+        text = src_text(src)
+        fails = []
+        # (a) unmodified: whole file and every program unit
+        sf = parse(text)
+        out = sf.to_fortran(conservative=True)
+        if out.strip('\n') != text.strip('\n'):
+            fails.append(Failure('unmodified file: conservative output differs from the original text: '
+                                 + str(first_diff(out.split('\n'), text.split('\n'))), None))
+        flines = text.split('\n')
+        for r in all_routines(sf):
+            s = r.source
+            if s and s.string is not None:
+                if r.to_fortran(conservative=True) != s.string:
+                    fails.append(Failure(f'unmodified unit {r.name}: conservative output differs from its source string', None))
+                if '\n'.join(flines[s.lines[0] - 1:s.lines[1]]).strip() != s.string.strip():
+                    fails.append(Failure(f'unit {r.name}: source string is not lines {s.lines} of the file', None))
+        res = run_real(req)
+        if res[0] == 'error' and len(res) == 2:
+            return fails
+        w, nb = res[-2], res[-1] if res[0] == 'error' else res[2]
+        if res[0] == 'ok':
+            w, nb, out = res[1], res[2], res[3]
+        rtree = w.export(nb)
+        classes = classify(rtree)
+        if res[0] == 'error':
+            fails.append(Failure(f'the conservative backend raises {res[1]} on the edited tree', pick(classes, SEMANTIC)))
+            return fails
+        # (b) the conservative output and the regular output describe the same program
+        if not CPPMACRO.search(text):
+            d = first_diff(logical_lines(out or ''), logical_lines(fgen(nb) or ''))
+            if d:
+                fails.append(Failure('after the edit the conservative output is not the program the regular backend prints: ' + d,
+                                     pick(classes, SEMANTIC)))
+        # a node still flagged VALID carries the text of its current subtree
+        if not CPPMACRO.search(text):
+            for n in preorder(nb):
+                k = kind_of(n)
+                if status_of(n) != 'valid' or k in ('comment', 'lother', 'section'):
+                    continue
+                st = n.source.string
+                if st.lstrip().lower().startswith('else'):
+                    continue
+                ref = logical_lines(fgen(n) or '')
+                if getattr(n, 'label', None) and ref:
+                    ref[0] = str(n.label) + ref[0]          # the label is printed by visit_tuple, not by the node's handler
+                if logical_lines(st) != ref:
+                    cls = None
+                    if k == 'scoped':
+                        cls = 'scoped-node-source-stale'
+                    elif k in ('loop', 'cond', 'iother') and not node_kids(n)[0] and not node_kids(n)[1]:
+                        cls = 'emptied-node-stays-valid'
+                    elif any(isinstance(p, ir.Conditional) and p.inline and any(c is n for c in p.body) for p in preorder(nb)):
+                        cls = 'inline-conditional-repeated'
+                    fails.append(Failure(f'{type(n).__name__} at lines {n.source.lines} is flagged VALID but its text is not its '
+                                         'subtree: ' + str(first_diff(logical_lines(st), ref)), cls))
+                    break
+        # Tiles, checked: re-flagging alone (identity transformer) must not change a single character where every node is
+        # printed from its source
+        if identity_only(edits) and edits and get_unit(sf, unit).body.body:
+            plain = all(t_kind(n) in VERB or (t_kind(n) == 'lother' and self._lother_verbatim(n, w)) for n in t_pre(rtree))
+            bl = w.body.source.lines
+            orig = flines[bl[0] - 1:bl[1]]
+            if plain and (out or '').split('\n') != orig:
+                fails.append(Failure('identity transformer: conservative output differs from the original text: '
+                                     + str(first_diff((out or '').split('\n'), orig)), pick(classes, PRIORITY)))
+        # every Source string is the text of its line span
+        for n in preorder(get_unit(sf, unit).body):
+            sl, ss = n.source.lines, n.source.string
+            if isinstance(n, ir.Section) and not n.body and not ss:
+                continue        # an empty body: the frontend records an empty string and the line after the unit
+            if '\n'.join(flines[sl[0] - 1:(sl[1] or sl[0])]) != ss:
+                stripped = isinstance(n, ir.Section) and '\n'.join(flines[sl[0] - 1:sl[1]]).rstrip() == ss.rstrip()
+                fails.append(Failure(f'{type(n).__name__}: source string is not lines {sl} of the file',
+                                     'section-source-stripped' if stripped else None))
+                break
+        return fails
+
+    @staticmethod
+    def _lother_verbatim(n, w):
+        rd = w.rtab.get(t_lbl(n))
+        return rd is not None and str(rd[2]) in ('True', 'true') and list(rd[0][0]) == t_text(n)
+
+
+PROP = C03()
+READY = True
